@@ -898,17 +898,20 @@ func (c *Conn) prepareRawPacket(pkt *dtlsflight.Packet) ([][]byte, error) {
 }
 
 func (c *Conn) cacheHandshakePacket(pkt *dtlsflight.Packet, dtlsHandshake *handshake.Handshake) error {
-	handshakeRaw, err := pkt.Record.Marshal()
+	// The message is cached whole, before it is cut into fragments: it may be
+	// longer than a record can carry, so only its own encoding is taken.
+	handshakeRaw, err := pkt.Record.Content.Marshal()
 	if err != nil {
 		return err
 	}
+	pkt.Record.Header.ContentType = pkt.Record.Content.ContentType()
 
 	c.log.Tracef("[handshake:%v] -> %s (epoch: %d, seq: %d)",
 		srvCliStr(dtlsstate.CommonState(c.state).IsClient), dtlsHandshake.Header.Type.String(),
 		pkt.Record.Header.Epoch, dtlsHandshake.Header.MessageSequence)
 
 	c.handshakeCache.Push(
-		handshakeRaw[recordlayer.FixedHeaderSize:],
+		handshakeRaw,
 		pkt.Record.Header.Epoch,
 		dtlsHandshake.Header.MessageSequence,
 		dtlsHandshake.Header.Type,
